@@ -25,6 +25,14 @@ import FqModel.Cli
   `ometa same <argvA> <argvB> stdin=… world=… keys=…` TAB `<obsA> | <obsB>`   two command lines a merge theorem equates
   `bind argv=… stdin=… world=… names=<hex,…> prog=<hex>` TAB `exit=<n> vals=<hexname:K:hexpayload,…|none>`
         one run whose program `prog` prints the named arguments; K = a string / j JSON text / r raw-file path / d decode-file path / u unknown
+  `raw form=<n> files=<spec;…|.> stdin=<hex>` TAB `R=<exit>/<vals>/<errs> Rs=<exit>/<vals>/<errs>`
+        raw input at BYTE level: spec = `f<hex>` regular file, `p<hex>` fifo, `m` missing, `d` directory (files are named by
+        position; no file = stdin); R = the run with -R, Rs = the same with -R -s, both with a program that frames every
+        input value as <byte length>:<bytes>; vals = `.` (none) | hex strings joined by `,` | `?` (unreadable framing);
+        errs = `-` | `io:<index>`/`other` joined by `,`
+  a `run` line may carry `fs=real` (the run used the real file system under a scratch directory); its world entries then
+        have a 7th field `<opens>.<regular>.<seekable>.<stat size>.<seek end|e>.<read all|e>`: what os.Open / Stat / Seek /
+        ReadAll said about the path, measured by the harness; the stated kind must agree with `openModel` on it
 -/
 open FqModel FqModel.Cli FqModel.Proto
 
@@ -165,7 +173,8 @@ def parseHdr (ws : List String) : Except String Hdr :=
 
 def parseFK : String → Option FKind
   | "j" => some .jobj | "n" => some .jnum | "b" => some .bin | "u" => some .undec
-  | "m" => some .missing | "d" => some .dir | "x" => some .unknown | _ => none
+  | "m" => some .missing | "d" => some .dir | "x" => some .unknown
+  | "e" => some .empty | "o" => some .noopen | "g" => some .ghost | _ => none
 
 def parsePC : String → Option PClass
   | "ok" => some .ok | "okq" => some .okq | "fnum" => some .fnum | "fall" => some .fall | "nc" => some .nc | "x" => some .unknown | _ => none
@@ -173,17 +182,41 @@ def parsePC : String → Option PClass
 def parseFmt : String → Option FmtKind
   | "p" => some .probe | "f" => some .forced | "-" => some .invalid | _ => none
 
-def parseTok (s : String) : Option Tok :=
+def parseOptNat (s : String) : Option (Option Nat) := if s == "e" then some none else s.toNat?.map some
+
+def parseBit (s : String) : Option Bool := if s == "1" then some true else if s == "0" then some false else none
+
+/-- `<opens>.<regular>.<seekable>.<stat size>.<seek end|e>.<read all|e>` -/
+def parseOsFile (s : String) : Option OsFile :=
+  match s.splitOn "." with
+  | [o, r, k, sz, se, ra] => do
+    let opens ← parseBit o
+    let regular ← parseBit r
+    let seekable ← parseBit k
+    let statSize ← sz.toNat?
+    let seekEnd ← parseOptNat se
+    let readAll ← parseOptNat ra
+    pure { opens, regular, seekable, statSize, seekEnd, readAll }
+  | _ => none
+
+/-- a world entry and, on the real file system, what the OS said about the path -/
+def parseTokOs (s : String) : Option (Tok × Option OsFile) :=
   match s.splitOn ":" with
-  | [n, fk, pc, cc, j, fm] => do
+  | n :: fk :: pc :: cc :: j :: fm :: rest => do
     let name ← strOfHex n
     let fk ← parseFK fk
     let pc ← parsePC pc
     let cc ← parsePC cc
     let fmt ← parseFmt fm
     if j != "0" && j != "1" then none
-    pure { name, fk, pc, cc, jsonOk := j == "1", fmt }
+    let os ← match rest with
+      | [] => some none
+      | [o] => (parseOsFile o).map some
+      | _ => none
+    pure ({ name, fk, pc, cc, jsonOk := j == "1", fmt }, os)
   | _ => none
+
+def parseTok (s : String) : Option Tok := (parseTokOs s).map (·.1)
 
 structure Obs where
   exit : Nat
@@ -250,7 +283,7 @@ def dedup (l : List String) : List String := l.foldl (fun acc x => if acc.contai
 def sameSet (a b : List String) : Bool := a.all b.contains && b.all a.contains
 
 def runVerdict (h : Hdr) (argv : List Str) (marks : List Bool) (w : World) (all : Obs) (singles : List Obs)
-    (norepl : Option Obs) : String :=
+    (norepl : Option Obs) (mustIo : List Str := []) : String :=
   match mainModel h.table h.codes h.dflt h.otypes w argv with
   | .error (.mk why) => s!"BADOP unmodelled: {why}"
   | .ok p =>
@@ -274,6 +307,14 @@ def runVerdict (h : Hdr) (argv : List Str) (marks : List Bool) (w : World) (all 
           -- --repl with named input files reads the same inputs and runs the same program as the command line without
           -- it (init.jq:246-258 vs :260-277): same set of reports, same status (only the order of reports and the
           -- display differ).  Not comparable when a run halts with a fatal error.
+          -- real file system: a path that the OS facts say cannot be opened or read (`openModel` = err on the measured
+          -- facts: a directory, a missing / forbidden / looping path) must be reported as a FILE error when it is the
+          -- only input of a default-mode run (status 2, not 4, not silence)
+          let notIo := (marked.zip singles).find? (fun (n, s) => mustIo.contains n && !s.errs.contains ("io:" ++ hexOfStr n) && !s.errs.contains "fatal")
+          if p.defaultMode && p.files == marked.map some && singles.length == marked.length && notIo.isSome
+              && !((notIo.map (fun d => d.2.len == 0 && d.2.errs.isEmpty)).getD false) then
+            some s!"input {String.ofList (notIo.map (·.1) |>.getD [])} cannot be opened or read (measured) but is not reported as a file error: reports {showErrs ((notIo.map (·.2.errs)).getD [])}, exit {(notIo.map (·.2.exit)).getD 0}"
+          else
           let replBad : Option String := match norepl with
             | some nr =>
               if p.repl && !marked.isEmpty && !all.errs.contains "fatal" && !nr.errs.contains "fatal"
@@ -305,17 +346,26 @@ def runVerdict (h : Hdr) (argv : List Str) (marks : List Bool) (w : World) (all 
 def stepRun (h : Hdr) (ws : List String) (obs : String) : String :=
   match kv ws "argv", kv ws "stdin", kv ws "world" with
   | some av, some si, some wo =>
-    match parseArgv av, parseFK si, (if wo == "." then some [] else (wo.splitOn ",").mapM parseTok) with
-    | some (argv, marks), some stdin, some toks =>
+    match parseArgv av, parseFK si, (if wo == "." then some [] else (wo.splitOn ",").mapM parseTokOs) with
+    | some (argv, marks), some stdin, some toksOs =>
+      let toks := toksOs.map (·.1)
+      -- real file system: the kind the harness states for a path must be what `openModel` makes of the measured OS facts
+      match toksOs.find? (fun (tk, os) => match os with | some o => !kindAgrees tk.fk o | none => false) with
+      | some (tk, _) => s!"BADOP the kind stated for {String.ofList tk.name} disagrees with openModel on the measured OS facts"
+      | none =>
       let ows := words obs
+      if ows.any (fun w => (w.splitOn "=panic:").length > 1 || (w.splitOn ";panic:").length > 1) then "PROPFAIL fq panicked" else
       match kv ows "all", kv ows "singles" with
       | some a, some s =>
         match parseObs a, (if s == "." then some [] else (s.splitOn ";").mapM parseObs) with
         | some all, some singles =>
+          let mustIo := toksOs.filterMap (fun (tk, os) => match os with
+            | some o => if openModel o == .err then some tk.name else none
+            | none => none)
           match kv ows "norepl" with
-          | none => runVerdict h argv marks { toks, stdin } all singles none
+          | none => runVerdict h argv marks { toks, stdin } all singles none mustIo
           | some nr => match parseObs nr with
-            | some o => runVerdict h argv marks { toks, stdin } all singles (some o)
+            | some o => runVerdict h argv marks { toks, stdin } all singles (some o) mustIo
             | none => "BADOP obs norepl"
         | _, _ => "BADOP obs"
       | _, _ => "BADOP obs fields"
@@ -518,6 +568,90 @@ def stepBind (h : Hdr) (ws : List String) (obs : String) : String :=
     | _, _ => "BADOP bind obs"
   | _, _, _, _ => "BADOP bind fields"
 
+
+/-! ### raw lines (bytes) -/
+
+structure RawSpec where
+  kind : Char                 -- f regular file, p fifo, m missing, d directory
+  content : List UInt8
+
+def parseRawSpec (s : String) : Option RawSpec :=
+  match s.toList with
+  | 'm' :: [] => some { kind := 'm', content := [] }
+  | 'd' :: [] => some { kind := 'd', content := [] }
+  | 'f' :: rest => (bytesOfHex (String.ofList rest)).map (fun b => { kind := 'f', content := b })
+  | 'p' :: rest => (bytesOfHex (String.ofList rest)).map (fun b => { kind := 'p', content := b })
+  | _ => none
+
+def RawSpec.readable (r : RawSpec) : Bool := r.kind == 'f' || r.kind == 'p'
+
+structure RawObs where
+  exit : Nat
+  vals : Option (List (List UInt8))     -- none = the framing could not be read back
+  errs : List String
+
+def parseRawObs (s : String) : Option RawObs :=
+  match s.splitOn "/" with
+  | [e, vs, errs] => do
+    let exit ← e.toNat?
+    let vals ← if vs == "?" then some none else if vs == "." then some (some []) else ((vs.splitOn ",").mapM bytesOfHex).map some
+    pure { exit, vals, errs := if errs == "-" then [] else errs.splitOn "," }
+  | _ => none
+
+def showVals (vs : List (List UInt8)) : String :=
+  if vs.isEmpty then "." else ",".intercalate (vs.map (fun b => if b.isEmpty then "-" else hexOfBytes b))
+
+def showRawObs (exit : Nat) (vs : List (List UInt8)) (errs : List String) : String :=
+  s!"{exit}/{showVals vs}/{showErrs errs}"
+
+def enumFrom {α} : Nat → List α → List (Nat × α)
+  | _, [] => []
+  | n, x :: xs => (n, x) :: enumFrom (n + 1) xs
+
+/-- the judgement of a `raw` line, on the observations and the input bytes alone -/
+def rawPropFail (c : Codes) (chunks : List (List UInt8)) (wantErrs : List String) (r rs : RawObs) : Option String :=
+  match r.vals, rs.vals with
+  | none, _ => some "the output of the -R run cannot be read back as a sequence of framed strings"
+  | _, none => some "the output of the -Rs run cannot be read back as a sequence of framed strings"
+  | some lines, some svals =>
+    match svals with
+    | [text] =>
+      if text != rawSlurpG chunks then some s!"-Rs gave {showVals [text]}, which is not the concatenation {showVals [rawSlurpG chunks]} of the readable inputs"
+      else if !rawJudge (10 : UInt8) text lines then
+        -- which clause of `rawJudge`
+        if lines.any (fun l => l.contains 10) then some "a value of -R contains a newline"
+        else if lines.isEmpty != text.isEmpty then some s!"-R gave {lines.length} values for a text of {text.length} bytes (an empty text, and only an empty text, has no line)"
+        else some s!"the values of -R joined with \\n ({showVals [rawJoin (10 : UInt8) text lines]}) do not reproduce the string of -Rs ({showVals [text]}): a byte other than a separating \\n was dropped or added"
+      else if r.errs != wantErrs || rs.errs != wantErrs then
+        some s!"reports on stderr are {showErrs r.errs} (-R) / {showErrs rs.errs} (-Rs), but the inputs that cannot be read are {showErrs wantErrs}: every failed input is reported once, in order"
+      else
+        let want := if wantErrs.isEmpty then 0 else c.io
+        if r.exit != want || rs.exit != want then some s!"exit {r.exit} (-R) / {rs.exit} (-Rs), but the reported failure classes demand {want}"
+        else none
+    | _ => some s!"-Rs gave {svals.length} values; jq gives exactly one string (also for empty input)"
+
+def stepRaw (h : Hdr) (ws : List String) (obs : String) : String :=
+  match kv ws "form", kv ws "files", (kv ws "stdin").bind bytesOfHex with
+  | some _, some fs, some stdin =>
+    match (if fs == "." then some [] else (fs.splitOn ";").mapM parseRawSpec) with
+    | none => "BADOP raw files"
+    | some specs =>
+      let ows := words obs
+      match (kv ows "R").bind parseRawObs, (kv ows "Rs").bind parseRawObs with
+      | some r, some rs =>
+        -- init.jq:76: every input is read first; the unreadable ones are reported and skipped; no file = stdin
+        let chunks := if specs.isEmpty then [stdin] else (specs.filter RawSpec.readable).map (·.content)
+        let wantErrs := (enumFrom 0 specs).filterMap (fun (i, sp) => if sp.readable then none else some s!"io:{i}")
+        let exit := if wantErrs.isEmpty then 0 else h.codes.io
+        let model := s!"R={showRawObs exit (rawLinesG (10 : UInt8) chunks) wantErrs} Rs={showRawObs exit [rawSlurpG chunks] wantErrs}"
+        let impl := s!"R={showRawObs r.exit (r.vals.getD []) r.errs} Rs={showRawObs rs.exit (rs.vals.getD []) rs.errs}"
+        let div := if model == impl && r.vals.isSome && rs.vals.isSome then "" else s!"DIVERGE model={model}"
+        match rawPropFail h.codes chunks wantErrs r rs with
+        | some why => s!"PROPFAIL {why}" ++ (if div.isEmpty then "" else " ;" ++ div)
+        | none => if div.isEmpty then "OK" else div
+      | _, _ => "BADOP raw obs"
+  | _, _, _ => "BADOP raw fields"
+
 def stepC17 (st : Option Hdr) (op obs : String) : Option Hdr × String :=
   match words op with
   | "hdr" :: ws =>
@@ -539,6 +673,7 @@ def stepC17 (st : Option Hdr) (op obs : String) : Option Hdr × String :=
       | "opt" :: rest => (st, stepOpt h rest obs)
       | "ometa" :: "same" :: a :: b :: rest => (st, stepOmeta h a b rest obs)
       | "bind" :: rest => (st, stepBind h rest obs)
+      | "raw" :: rest => (st, stepRaw h rest obs)
       | _ => (st, "BADOP op")
 
 def main : IO Unit := runSt (none : Option Hdr) stepC17
